@@ -63,6 +63,8 @@ Lines(kd) ==
     [] kd = "trail"   -> <<"n = n + 1  # c">>                          \* a trailing comment
     [] kd = "trailws" -> <<"n = n + 1   ">>                            \* trailing white space
     [] kd = "pass"    -> <<"pass">>
+    [] kd = "icomment" -> <<"    # c">>                             \* a comment line that starts with blanks: still only a comment
+    [] kd = "tcomment" -> <<"\t# c">>                               \* ... or with a tab
     [] kd = "oneline" -> <<"if True: n = n + 1", "">>                  \* a compound statement on one line: complete at once
     [] kd = "tryexc"  -> <<"try:", "    n = n + undefined_name", "except NameError:", "    n = n + 1", "">>
     [] kd = "tryfin"  -> <<"try:", "    n = n + 1", "finally:", "    n = n + 1", "">>
@@ -89,7 +91,7 @@ Lines(kd) ==
     [] kd = "cstr"    -> <<"if True:", "    '''x", "", "    y'''", "">>    \* a string with an empty line, in a block
 
 OneLine   == {"init", "inc", "echo", "none", "under", "call", "comment", "empty", "ws", "serr", "rerr",
-              "semi", "semiecho", "indented", "trail", "trailws", "pass"}
+              "semi", "semiecho", "indented", "trail", "trailws", "pass", "icomment", "tcomment"}
 Compound  == {"cinc", "nest", "loop", "else", "cmt", "cecho", "def", "rerrc", "cstr", "tryexc", "tryfin", "elif", "tabblk", "while"}   \* complete only with the (last) blank line
 Continued == {"ml", "mlc", "mls", "bs", "mle", "mlse", "mlsw", "oneline", "mlsh"}                           \* complete at the closing line
 FixedKinds == OneLine \cup Compound \cup Continued \cup {"serrc"}
@@ -97,7 +99,7 @@ AllKinds  == FixedKinds \cup BlockKinds
 Alphabet  == FixedKinds \ {"init"}     \* the items a session is made of after its initial  n = 0
 (* the alphabet of the exhaustive 3-item sessions (thorough tier): without the kinds that vary the spelling of a *)
 (* statement only (they are explored in all 2-item sessions)                                                    *)
-Alphabet3 == Alphabet \ {"semi", "semiecho", "indented", "trail", "trailws", "pass", "oneline", "tryexc", "tryfin", "elif", "tabblk", "while", "mlsh"}
+Alphabet3 == Alphabet \ {"icomment", "tcomment", "semi", "semiecho", "indented", "trail", "trailws", "pass", "oneline", "tryexc", "tryfin", "elif", "tabblk", "while", "mlsh"}
 
 M(kd) == Len(Lines(kd))
 (* the line from which on the item may execute (or, for an erroneous statement, be reported) *)
